@@ -7,6 +7,7 @@ import (
 	"net"
 	"sync"
 	"sync/atomic"
+	"unsafe"
 )
 
 // Verification hooks, compiled only with the "verif" build tag. They add
@@ -40,6 +41,8 @@ const (
 type VerifServerStats struct {
 	Ev   [verifEvCount]atomic.Int64
 	Busy atomic.Int32
+	// Ptr is the address of the connection object, as goroutine dumps print it.
+	Ptr atomic.Uintptr
 
 	// gauges, published by the stream loop at the top of every iteration
 	Streams      atomic.Int64 // len(strms)
@@ -78,6 +81,7 @@ type verifServer struct {
 
 func (v *verifServer) register(sc *serverConn) {
 	v.st = VerifServerStatsFor(sc.c)
+	v.st.Ptr.Store(uintptr(unsafe.Pointer(sc)))
 }
 
 func (v *verifServer) ev(i int) {
